@@ -221,7 +221,7 @@ func c12SetLane(l, h *[consts.HashTrinarySize]uint, j int, tr *[243]int8) {
 
 func runC12(c *core.Ctx) {
 	th := c.Thorough()
-	c.Rule = "lane test (hooks): ~150 (thorough ~480) configurations (message length, target) with length*target around 3^k for k=2..40, at 1, and near 2^64; per configuration ~17 hash classes placed at every threshold of the three-stage test (zero-count boundaries, target hash +-1, exact-difficulty boundary) on 3 unqualified backgrounds with <=2 deviating lanes over lane indices {0,1,31,62,63} (thorough: all 64) and all class pairs; oracle straight from the property (returned lane qualifies; a lane with difficulty > length*target is never passed over); toInt on single-trit and chunk-boundary patterns; Score vs own chain; Mine end to end with the real hash and a single worker: no earlier block of 64 nonces holds a strictly qualifying nonce; scripted batches through Mine (sched variant); non-trivial = distinct lane states + mined (data,target) pairs + scored messages"
+	c.Rule = "lane test (hooks): ~150 (thorough ~480) configurations (message length, target) with length*target around 3^k for k=2..40, at 1, and near 2^64; per configuration ~17 hash classes placed at every threshold of the three-stage test (zero-count boundaries, target hash +-1, exact-difficulty boundary) on 3 unqualified backgrounds with <=2 deviating lanes every single lane, pairs over lane indices {0,1,31,62,63} (thorough: 12 indices around the quarter points) and all class pairs; oracle straight from the property (returned lane qualifies; a lane with difficulty > length*target is never passed over); toInt on single-trit and chunk-boundary patterns; Score vs own chain; Mine end to end with the real hash and a single worker: no earlier block of 64 nonces holds a strictly qualifying nonce; scripted batches through Mine (sched variant); non-trivial = distinct lane states + mined (data,target) pairs + scored messages"
 	var nontriv atomic.Int64
 	one := big.NewInt(1)
 
@@ -272,12 +272,10 @@ func runC12(c *core.Ctx) {
 	// ---- lane test ----
 	cfgs := c12Configs(th)
 	c.Set("configurations", int64(len(cfgs)))
+	// lanes for the two-deviating-lanes family (every single lane is always covered by the one-lane family)
 	laneIdx := []int{0, 1, powW/2 - 1, powW - 2, powW - 1}
 	if th {
-		laneIdx = nil
-		for j := 0; j < powW; j++ {
-			laneIdx = append(laneIdx, j)
-		}
+		laneIdx = []int{0, 1, 2, powW/4 - 1, powW / 4, powW/2 - 1, powW / 2, powW/2 + 1, 3*powW/4 - 1, 3 * powW / 4, powW - 2, powW - 1}
 	}
 	var strictStates, qualStates atomic.Int64
 	core.Par(len(cfgs), func(ci int) {
